@@ -44,10 +44,15 @@ def connect(c, world: World, proto=4, keepalive=60, sp=0, rc=0, clean_start=None
         r = c.connect("broker", 1883, keepalive, properties=props)
     else:
         r = c.connect("broker", 1883, keepalive)
-    s = world.cur()
-    s.feed(wire.enc_connack(proto, sp=sp, rc=rc))
+    feed_pkt(world, wire.enc_connack(proto, sp=sp, rc=rc))
     pump_read(c)
     return r
+
+
+def feed_pkt(world: World, data: bytes, sock=None):
+    """deliver broker bytes on the current connection (as one WebSocket binary frame when the transport is websockets)"""
+    s = sock or world.cur()
+    s.feed(wire.ws_frame(data) if world.websocket else data)
 
 
 def rc_name(rc) -> str:
